@@ -114,6 +114,20 @@ def make_script(sc: dict, i: int):
         if typ != "time-based" and sc.get("future_outputs") and (r >> 20) % 4 == 0:
             beh["out_time"] = t + 1 + (r >> 23) % 2
         asyncs = []
+        for c in agents_of:
+            # the agent asks the controller for data: any mix of connected (cached) and unconnected attributes of its entities
+            rg = h(seed, i, t, k, "gd", c["src"], c["seid"], c["sattr"])
+            if sc.get("echo_always"):
+                # every step: ask for exactly the attribute the async connection carries (so it is in the cache when the cache is on)
+                asyncs.append(("get_data", c["src"], {f"S{c['src']}.{c['seid']}": [ATTRS[c["sattr"]]]}))
+            elif not sc.get("no_async_get") and rg % 3 == 0:
+                req = {}
+                for e in (0, 1):
+                    for a in (2, 3):
+                        if (rg >> (4 + 2 * e + (a - 2))) & 1:
+                            req.setdefault(f"S{c['src']}.{e}", []).append(ATTRS[a])
+                if req:
+                    asyncs.append(("get_data", c["src"], req))
         if sc.get("broadcast_set_data") and agents_of and h(seed, i, t, k, "bc") % 3 != 0:
             # ONE set_data call in which every entity of this agent writes to every controller it is connected to
             # (the example_mas pattern): the loop over the payload returns to a controller after addressing another one
@@ -130,21 +144,10 @@ def make_script(sc: dict, i: int):
             asyncs.append(("set_data", None, payload))
         for c in ([] if sc.get("broadcast_set_data") else agents_of):
             rr = h(seed, i, t, k, "sd", c["src"])
-            if rr % 3 != 0:
+            if rr % 3 != 0 or sc.get("echo_always"):
                 # this simulator (agent) sets data for an entity of the connection's source
                 payload = {f"S{i}.{c['deid']}": {f"S{c['src']}.{c['seid']}": {ATTRS[rr % 2]: (None if (rr >> 4) % 5 == 0 else token(i, n, 0, 0) + 500000)}}}
                 asyncs.append(("set_data", c["src"], payload))
-        for c in agents_of:
-            # the agent asks the controller for data: any mix of connected (cached) and unconnected attributes of its entities
-            rg = h(seed, i, t, k, "gd", c["src"], c["seid"], c["sattr"])
-            if not sc.get("no_async_get") and rg % 3 == 0:
-                req = {}
-                for e in (0, 1):
-                    for a in (2, 3):
-                        if (rg >> (4 + 2 * e + (a - 2))) & 1:
-                            req.setdefault(f"S{c['src']}.{e}", []).append(ATTRS[a])
-                if req:
-                    asyncs.append(("get_data", c["src"], req))
         for req in sc.get("extra_async", []):
             if req["sim"] == i and req["n"] == n:
                 if req["kind"] == "set_data":
@@ -190,7 +193,10 @@ def build_from(sc: dict):
 
         def start(i):
             s = sims[i]
-            ScriptSim.REG[f"S{i}"] = {"ctl": controller, "meta": meta_for(s["type"], s.get("api"), declares_set_events(sc, i)), "script": make_script(sc, i)}
+            controller.external = [{"sid": f"S{x['sim']}", "clock": x["clock"], "offset": x["offset"], "ticks_per_step": sc["rt"]}
+                                   for x in sc.get("external_events", [])]
+            ScriptSim.REG[f"S{i}"] = {"ctl": controller, "meta": meta_for(s["type"], s.get("api"), declares_set_events(sc, i)), "script": make_script(sc, i),
+                                         "echo": bool(sc.get("echo_get_data"))}
             if s.get("via_parent"):
                 # the entities that get connected are the children (model M) of two parents of another model
                 ents[i] = [par.children[0] for par in world.start("S", sim_id=f"S{i}").P.create(2)]
@@ -272,6 +278,8 @@ def normalise(sc: dict) -> dict:
         sc["fault"]["sim"] = pos[sc["fault"]["sim"]]
     if sc.get("slow") is not None:
         sc["slow"] = pos[sc["slow"]]
+    for r in sc.get("external_events", []):
+        r["sim"] = pos[r["sim"]]
     for r in sc.get("extra_async", []):
         r["sim"] = pos[r["sim"]]
         if "target" in r:
@@ -519,6 +527,8 @@ def compare(driver, sc: dict, sched_seed: int):
             lines.extend(reply_lines(action))
         elif action[0] == "tick":
             lines.append(f"act tick {int(round(action[1]))}")
+        elif action[0] == "extevent":
+            lines.append(f"act setevent {action[1][1:]} {action[2]}")
         elif action[0] == "deadlock":
             continue
         impl_obs.append(canon_obs(status, [e for e in events if e[0] != "set_data"]))
@@ -681,6 +691,15 @@ def gen_scenario(rng: random.Random, groups: bool = True, async_req: bool = Fals
             # the same event requested again (in the same or a later step), and an earlier one in between: the repeat must not
             # give a second step
             first = sc["extra_async"][0]
+            if rng.random() < 0.4:
+                # events that reach a simulator from outside while it is idle (not from within step()): at a clock value, for the
+                # period that is running then or a later one
+                f = sc["rt"]
+                evs = []
+                for _ in range(rng.choice([1, 1, 2])):
+                    clock = rng.randrange(0, f * sc["until"])
+                    evs.append({"sim": rng.randrange(n), "clock": clock, "offset": rng.choice([0, 0, 0, 1, 2])})
+                sc["external_events"] = sorted(evs, key=lambda x: x["clock"])
             if rng.random() < 0.5:
                 sc["extra_async"].append(dict(first, n=first["n"] + rng.choice([0, 0, 1])))
                 if rng.random() < 0.5 and first["time"] > 1:
@@ -710,6 +729,10 @@ def gen_scenario(rng: random.Random, groups: bool = True, async_req: bool = Fals
         for x in sims:
             if rng.random() < 0.5:
                 x["api"] = rng.choice(["2.0", "2.2", "2.2"])
+    if async_req and rng.random() < 0.5:
+        # agents whose set_data values are computed from what their last get_data returned (a deterministic simulator is a
+        # function of everything it observes, the answers to its requests included)
+        sc["echo_get_data"] = True
     if async_req and rng.random() < 0.25:
         a, b = rng.sample(range(n), 2)
         sc["extra_async"] = [{"sim": a, "n": rng.randrange(0, 3), "kind": rng.choice(["set_data", "get_data"]), "target": b}]
@@ -723,6 +746,23 @@ def gen_scenario(rng: random.Random, groups: bool = True, async_req: bool = Fals
             # (whatever else its meta data declares, e.g. set_events)
             sc["fault"] = {"sim": rng.choice(tb), "n": rng.randrange(0, 3), "kind": "none"}
             sc["sims"][sc["fault"]["sim"]]["set_events"] = rng.random() < 0.5
+    return normalise(sc)
+
+
+def gen_async_echo_scenario(rng: random.Random) -> dict:
+    """A controller whose measurement goes to an agent over an async_requests connection; the agent asks for that measurement with
+    get_data in every step and sends back, with set_data, a value computed from the answer (a deterministic simulator is a function
+    of everything it observes).  What the controller then receives must not depend on cache / lazy / debug / schedule."""
+    a_type = rng.choice(["time-based", "time-based", "hybrid"])
+    b_type = rng.choice(["time-based", "hybrid"])
+    sims = [{"type": a_type, "group": [], "init_ev": None}, {"type": b_type, "group": [], "init_ev": None}]
+    connects = [{"src": 0, "seid": rng.randrange(2), "dst": 1, "deid": rng.randrange(2), "sattr": 2, "dattr": 0, "ts": 0, "weak": False,
+                 "init": False, "async": True}]
+    if rng.random() < 0.4:
+        sims.append({"type": "time-based", "group": [], "init_ev": None})       # a bystander that makes the schedule richer
+    sc = {"sims": sims, "connects": connects, "until": rng.randint(4, 6), "max_loop": 100, "lazy": rng.random() < 0.5,
+          "cache": rng.random() < 0.5, "beh_seed": rng.randrange(10 ** 9), "sparse_persistent": False, "future_outputs": False,
+          "echo_get_data": True, "echo_always": True}
     return normalise(sc)
 
 
@@ -1108,6 +1148,9 @@ def run_sched_suite(driver, rng: random.Random, n_scenarios: int, n_schedules: i
             traces += 1
             for ft in set(features(sc, str(outcome))):
                 hist[ft] += 1
+            for a in c.actions:
+                if a[0][0] == "extevent":
+                    hist["external event injected while the simulator is idle"] += 1
             for e in c.full_trace:
                 if e[0] == "get_data_res":
                     # data path of async get_data: answered from the cache / forwarded to the other simulator / both in one request
